@@ -37,6 +37,8 @@ fn mnemonic<T: std::fmt::Debug>(t: &T) -> String {
 pub fn all_qtypes() -> Vec<QTYPE> {
     let mut q: Vec<QTYPE> = TYPE_CODES.iter().map(|c| QTYPE::TYPE(TYPE::from(*c))).collect();
     q.extend([QTYPE::ANY, QTYPE::MAILB, QTYPE::MAILA, QTYPE::AXFR, QTYPE::IXFR]);
+    // questions an application can build for types the library has no layout for: they match records of that very type only
+    q.extend([0u16, 52, 99, 250, 256, 65280, 65535].iter().map(|c| QTYPE::TYPE(TYPE::from(*c))));
     q
 }
 
@@ -202,6 +204,8 @@ pub fn cases(_tier: &str, seed: u64) -> Vec<Case> {
                         else if owned.rdata.type_code() != t { c = c.fail("type-code-faithful", format!("the owned copy of a received record with TYPE word {} reports {:?}", w, owned.rdata.type_code())); }
                         else if back.as_ref().map(|b| b.len() > 16 && b[15..17] == w.to_be_bytes()) != Some(true) { c = c.fail("type-code-faithful", format!("the owned copy of a received record with TYPE word {} is written under another code", w)); }
                         else if r.match_qtype(QTYPE::ANY) != true || owned.match_qtype(QTYPE::TYPE(t)) != true { c = c.fail("match-qtype", format!("a received record of type {} does not match its own type / ANY", w)); }
+                        // ... and no other type: the next code, an unsupported one, a supported one
+                        else if let Some(other) = [w.wrapping_add(1), 99, 52, 65280, 1, 16].iter().map(|c| TYPE::from(*c)).find(|o| *o != t && r.match_qtype(QTYPE::TYPE(*o))) { c = c.fail("match-qtype", format!("a received record of type {} matches a question for {:?}", w, other)); }
                     }
                 },
             }
